@@ -623,7 +623,8 @@ def simplify_terms(uni):
         X, Z = "sigma_x", "sigma_+"
     T = [mk(uni, X, 0, 0.5), mk(uni, X + " I", [0, "s"], 0.5), mk(uni, X, 0, -0.5), mk(uni, "I " + X, [e, 0], 4e-4), mk(uni, X, 0, 7e-4),
          mk(uni, Z + " " + X, ["s", 0], 1e-3), mk(uni, X + " " + Z, [0, "s"], 1e-13), mk(uni, "I", 0, 2.0), mk(uni, "I I", [0, "s"], -2.0),
-         mk(uni, "I", "s", 1e-13), mk(uni, Z + " I " + X, ["s", e, 0], -2.0 + 1j), mk(uni, Z, "s", 0.0)]
+         mk(uni, "I", "s", 1e-13), mk(uni, Z + " I " + X, ["s", e, 0], -2.0 + 1j), mk(uni, Z, "s", 0.0),
+         mk(uni, X + " " + Z, [0, "s"], 0.25), mk(uni, X + " " + Z, ["s", 0], 0.75)]      # one symbol string on permuted degrees of freedom: different operators
     return T
 
 
